@@ -39,7 +39,7 @@ def to_ticks(seconds):
 
 class TRec(object):
     __slots__ = ("tid", "name", "baton", "state", "op", "real", "wake_reason", "client", "exc", "prio",
-                 "in_point", "steps")
+                 "in_point", "steps", "held")
 
     def __init__(self, tid, name):
         self.tid = tid
@@ -55,6 +55,7 @@ class TRec(object):
         self.prio = 0
         self.in_point = False
         self.steps = 0
+        self.held = []  # controlled locks this thread owns, outermost first
 
     def __repr__(self):
         return "<T %s %s %s>" % (self.name, self.state, self.op and self.op[0])
@@ -98,6 +99,10 @@ class Scheduler(object):
         self.roles = {}  # id(obj) -> role name
         self.keepalive = []
         self.ops_log = None  # optional list of (thread, kind, role)
+        self.lock_log = None  # optional list of (thread, "a" | "r", lock ordinal): lock programs for spec/LockCases
+        self.lock_info = {}  # lock ordinal -> (type name of the object that created it, site, ids of the `self` chain)
+        self.lock_counter = itertools.count(1)
+        self.owners = {}  # id(object) -> prefix given by the scenario (e.g. "x2" for the executor of layer 2)
         self._abort_lock = _real_allocate()
 
     # ------------------------------------------------------------------ recording
@@ -130,6 +135,37 @@ class Scheduler(object):
         except Exception:
             pass
         return obj
+
+    def register_owner(self, obj, prefix):
+        """The scenario names an object (an executor of its stack); every lock created by a method running on
+        behalf of it - directly or through a future / helper it constructs - gets `prefix` in its role."""
+        self.owners[id(obj)] = prefix
+        self.keepalive.append(obj)
+
+    def lock_role(self, lock):
+        """Role of a controlled lock: <prefix of the nearest registered object in whose methods it was created> /
+        <type of the object that created it> @ <file:line>.  Instances with the same role are one class of lock."""
+        info = self.lock_info.get(getattr(lock, "_lid", None))
+        if info is None:
+            return "?"
+        tname, site, chain = info
+        pre = "-"
+        for oid in chain:
+            if oid in self.owners:
+                pre = self.owners[oid]
+                break
+        return "%s/%s@%s" % (pre, tname, site)
+
+    def _lock_event(self, rec, op, lock):
+        if op == "a":
+            rec.held.append(lock)
+        else:
+            try:
+                rec.held.remove(lock)
+            except ValueError:
+                pass
+        if self.lock_log is not None:
+            self.lock_log.append((rec.name, op, lock._lid))
 
     def _poll_tracked(self):
         for ent in self.tracked:
@@ -244,6 +280,20 @@ class Scheduler(object):
         while True:
             recs = [self.threads[t] for t in self.order]
             enabled = [r for r in recs if self._enabled(r)]
+            hb = getattr(self.strategy, "held_back", None)
+            if enabled and hb is not None:
+                # a steering strategy keeps some threads parked before an operation they could perform, while the
+                # others run and - within its patience - while virtual time advances to the next timer
+                free = [r for r in enabled if not hb(self, r)]
+                if free:
+                    return self.strategy.choose(self, free)
+                timed = [r.op[2] for r in recs if r.state == "blocked" and r.op and r.op != "aborted"
+                         and r.op[2] is not None and r not in enabled]
+                if timed and min(timed) <= self.strategy.patience_until(self):
+                    self.now = max(self.now, min(timed))
+                    continue
+                self.strategy.give_up(self)
+                return self.strategy.choose(self, enabled)
             if enabled:
                 return self.strategy.choose(self, enabled)
             idle = [r for r in recs if r.state == "blocked" and r.op and r.op != "aborted" and r.op[0] == "idle"]
@@ -405,6 +455,33 @@ def _cur(obj):
     return s
 
 
+_OWN_FILE = os.path.abspath(__file__).replace(".pyc", ".py")
+
+
+def _creation_info():
+    """Where and on whose behalf a controlled lock is created: (type name of the nearest `self`, file:line of the
+    nearest library frame, ids of the `self` objects up the stack - nearest first)."""
+    f = sys._getframe(2)
+    site, tname, chain = None, None, []
+    n = 0
+    while f is not None and n < 60:
+        fn = f.f_code.co_filename
+        if fn != _OWN_FILE and not fn.endswith("threading.py"):
+            if site is None:
+                site = "%s:%d" % (os.path.basename(fn), f.f_lineno)
+            if "self" in f.f_code.co_varnames:
+                obj = f.f_locals.get("self")
+                if obj is not None:
+                    if tname is None:
+                        tname = type(obj).__name__
+                    oid = id(obj)
+                    if not chain or chain[-1] != oid:
+                        chain.append(oid)
+        f = f.f_back
+        n += 1
+    return (tname or "-", site or "?", tuple(chain))
+
+
 class Lock(object):
     _re = False
 
@@ -414,6 +491,10 @@ class Lock(object):
         self._owner = None
         self._count = 0
         self.name = None
+        self._lid = None
+        if s is not None:
+            self._lid = next(s.lock_counter)
+            s.lock_info[self._lid] = _creation_info()
 
     def _can_acquire(self, rec):
         return self._owner is None or (self._re and self._owner is rec)
@@ -431,6 +512,8 @@ class Lock(object):
         if not blocking:
             s.point("yield", self)
             if self._can_acquire(rec):
+                if self._owner is not rec:
+                    s._lock_event(rec, "a", self)
                 self._owner = rec
                 self._count += 1
                 return True
@@ -443,6 +526,8 @@ class Lock(object):
             if r == "timeout":
                 return False
             raise EngineError("granted acquire on a held lock")
+        if self._owner is not rec:
+            s._lock_event(rec, "a", self)
         self._owner = rec
         self._count += 1
         return True
@@ -452,6 +537,10 @@ class Lock(object):
             raise RuntimeError("release unlocked lock")
         self._count -= 1
         if self._count == 0:
+            if type(self._owner) is TRec:
+                s = _cur(self)
+                if s is not None:
+                    s._lock_event(self._owner, "r", self)
             self._owner = None
 
     def __enter__(self):
@@ -465,12 +554,20 @@ class Lock(object):
 
     def _release_save(self):
         st = (self._owner, self._count)
+        if type(self._owner) is TRec:
+            s = _cur(self)
+            if s is not None:
+                s._lock_event(self._owner, "r", self)
         self._owner = None
         self._count = 0
         return st
 
     def _acquire_restore(self, st):
         self._owner, self._count = st
+        if type(self._owner) is TRec:
+            s = _cur(self)
+            if s is not None:
+                s._lock_event(self._owner, "a", self)
 
     def _is_owned(self):
         s = SCHED
@@ -936,14 +1033,14 @@ def enable_line_points():
 # ====================================================================== running one execution
 class Result(object):
     __slots__ = ("events", "schedule", "outcome", "blocked", "now", "steps", "failure", "forced", "ops", "extra",
-                 "thread_excs")
+                 "thread_excs", "locks")
 
     def to_dict(self):
         return {k: getattr(self, k) for k in self.__slots__}
 
 
 def run_execution(main, strategy, granularity="sync", visible=None, max_steps=50000, horizon=10 ** 8,
-                  setup=None, ops_log=False, wall_timeout=120):
+                  setup=None, ops_log=False, wall_timeout=120, lock_log=False):
     """Run `main()` as the controlled main thread under `strategy`.  Returns a Result."""
     global SCHED
     install()
@@ -954,6 +1051,8 @@ def run_execution(main, strategy, granularity="sync", visible=None, max_steps=50
     sched = Scheduler(strategy, max_steps=max_steps, horizon=horizon, granularity=granularity, visible=visible)
     if ops_log:
         sched.ops_log = []
+    if lock_log:
+        sched.lock_log = []
     SCHED = sched
     try:
         _reset_module_state()
@@ -978,6 +1077,16 @@ def run_execution(main, strategy, granularity="sync", visible=None, max_steps=50
     r.failure = sched.failure
     r.forced = sched.forced_switches
     r.ops = sched.ops_log
+    r.locks = None
+    if sched.lock_log is not None:
+        class _L(object):
+            pass
+        roles = {}
+        for lid in set(x[2] for x in sched.lock_log):
+            o = _L()
+            o._lid = lid
+            roles[lid] = sched.lock_role(o)
+        r.locks = [(t, op, lid, roles[lid]) for (t, op, lid) in sched.lock_log]
     r.extra = {}
     r.thread_excs = [(t.name, repr(t.exc)) for t in sched.threads.values() if t.exc is not None]
     # break cycles promptly
